@@ -49,7 +49,7 @@ CLAIMED = {
         design="§6 C08"),
     "C15": dict(
         technique="Lean 4 proof (invariant by induction over edit histories) + differential correspondence of edit histories + coherence oracle",
-        text=("The record model (name map + slot list with Python dict/list semantics) carries an invariant proved for the initial record and preserved by every set/add/delete in every addressing form; "
+        text=("The record model (name map + slot list with Python dict/list semantics) carries an invariant proved for the initial record and preserved by every set/add/delete in every addressing form and by the inherited popitem() / clear(); "
               "failed operations leave the record unchanged. The model is tied to MafRecord by replaying random and (thorough) all short edit histories on both and comparing the full observation after every step; "
               "the property's own coherence conditions are evaluated on the implementation through its public API."),
         note="post-hoc mutation of stored column objects is outside the property; object identity is modelled by an oid field",
